@@ -24,7 +24,10 @@ RULE = (
     "with a dict structure built directly from an independent walk (one dict per node, child order, data = str(data) "
     "or mapper output, data_id present iff it differs from hash(data), children key exactly for inner nodes). Oracle "
     "2 (round trip): Tree.from_dict() reproduces shape, order, data, explicit data_ids and the clone partition. "
-    "Non-trivial: tree has a clone group or an explicit id; distinct = distinct case."
+    "Further: string trees of a Tree subclass that overrides serialize_mapper (the save-format mapper is not the "
+    "default of the dict form), and trees of DictWrapper objects with the library's DictWrapper.serialize_mapper "
+    "(mirror, then children are removed and the form must mirror the new shape; the wrapped dicts stay unmodified). "
+    "Non-trivial: tree has a clone group or an explicit id (DictWrapper: an inner node); distinct = distinct case."
 )
 ASSUMPTIONS = [
     "without mapper only string data is used (the dict form stores str(data))",
@@ -74,14 +77,73 @@ def deser_mapper(parent, item):
     return Person(item["data_id"], item["name"])
 
 
+class SaveMapperTree(Tree):
+    """A Tree subclass in the style of the user guide: its serialize_mapper belongs to the compact save() format
+    (entries with a "str" key); the dict form of to_dict_list() has its own documented default."""
+
+    def serialize_mapper(self, node, data):
+        data["s"] = data.pop("str")
+        return data
+
+
+def run_dictwrap(case, rec):
+    """DictWrapper objects with the library's DictWrapper.serialize_mapper: the dict form mirrors the tree - also the
+    second time, after the tree changed (the wrapped dicts are the user's objects, not scratch space)."""
+    from nutree.common import DictWrapper
+
+    fl = Flavour("dictwrap")
+    tree, nodes = build(case["spec"], flavour=fl)
+    rec.cls("flavour=dictwrap")
+    contents = {id(n.data): dict(n.data._dict) for n in nodes}
+
+    def mirror(tag):
+        w = walk(tree)
+
+        def exp_dict(n):
+            d = dict(contents[id(n.data)])
+            if w.kids[id(n)]:
+                d["children"] = [exp_dict(c) for c in w.kids[id(n)]]
+            return d
+
+        exp = [exp_dict(n) for n in w.kids[id(None)]]
+        rec.evals += 1
+        try:
+            got = tree.to_dict_list(mapper=DictWrapper.serialize_mapper)
+        except Exception as e:  # noqa: BLE001
+            rec.fail(f"dictwrap:{tag}:raises", repr(e)[:200])
+            return False
+        if got != exp:
+            rec.fail(f"dictwrap:{tag}:mirror", {"got": got, "exp": exp})
+            return False
+        for n in w.pre:
+            if n.data._dict != contents[id(n.data)]:
+                rec.fail(f"dictwrap:{tag}:data-object-modified", {"now": n.data._dict, "was": contents[id(n.data)]})
+                return False
+        return True
+
+    if not mirror("first"):
+        return
+    inner = [n for n in nodes if n.children]
+    rec.nt(bool(inner))
+    for i in case.get("strip", []):
+        if inner:
+            inner[i % len(inner)].remove_children()
+            inner = [n for n in inner if n.tree is tree and n.children]
+    mirror("after-removing-children")
+
+
 def run(case, rec):
     flav = case["flavour"]
+    if flav == "dictwrap":
+        return run_dictwrap(case, rec)
     fl = Flavour("obj_cb" if flav == "obj" else "str")
     if flav == "obj" and case.get("falsy"):
         # every second label is represented by a falsy (but perfectly legal) object
         orig = fl._make
         fl._make = lambda label: FalsyPerson("g-" + label, label) if (len(label) + (ord(label[0]) if label else 0)) % 2 else orig(label)
-    tree, nodes = build(case["spec"], flavour=fl)
+    tree, nodes = build(case["spec"], flavour=fl, tree=SaveMapperTree("T") if case.get("subclass") else None)
+    if case.get("subclass"):
+        rec.cls("Tree-subclass-with-save-mapper")
     if case.get("emptied"):
         # a tree that was filled and emptied again
         if case["emptied"] == "clear":
@@ -219,13 +281,20 @@ def run(case, rec):
 
 @st.composite
 def hyp_cases(draw, tier):
-    flav = draw(st.sampled_from(["str", "str", "obj"]))
+    flav = draw(st.sampled_from(["str", "str", "obj", "dictwrap"]))
+    if flav == "dictwrap":
+        from vlib.build import ALPHA as _A
+
+        spec = draw(gen.forest_specs(max_nodes=12, max_depth=4, max_width=4, min_nodes=2, alphabet=_A))
+        return {"spec": spec, "flavour": flav, "strip": draw(st.lists(st.integers(0, 7), min_size=1, max_size=3))}
     opts = gen.node_opts(explicit_ids=True) if flav == "str" else None
     from vlib.build import ALPHA
 
     spec = draw(gen.forest_specs(max_nodes=16, max_depth=5, max_width=4, opts=opts, alphabet=ALPHA + ['q"t', "b\\s", "n\nl", " sp ", ""]))
     gen.fix_sibling_ids(spec)
     case = {"spec": spec, "flavour": flav, "json": draw(st.booleans())}
+    if flav == "str" and draw(st.sampled_from([0, 0, 1])):
+        case["subclass"] = True
     if flav == "obj":
         case["style"] = draw(st.sampled_from(["inplace", "newdict", "guidkey"]))
         case["falsy"] = draw(st.booleans())
